@@ -23,6 +23,8 @@ struct LeafSpec {
 	eku: Vec<ExtendedKeyUsagePurpose>,
 	nb: Dt,
 	na: Dt,
+	/// what the leaf says about being a CA: nothing, or outright that it is none
+	ca: Ca,
 }
 
 #[derive(Clone, Debug)]
@@ -38,6 +40,9 @@ struct ChainCase {
 	/// the leaf is issued from a request it made (parsed, AKI switched on by the issuer) instead of
 	/// with its key
 	via_request: bool,
+	/// the intermediate is certified for its public key alone (a SubjectPublicKeyInfo imported
+	/// from the exported key) instead of with its key pair at hand
+	inter_via_spki: bool,
 }
 
 fn base_ca(nb_year: i32, na_year: i32) -> CaSpec {
@@ -49,11 +54,12 @@ fn base_case(depth2: bool) -> ChainCase {
 		tag: "baseline".into(),
 		root: base_ca(2020, 2040),
 		inter: if depth2 { Some(base_ca(2021, 2039)) } else { None },
-		leaf: LeafSpec { sans: vec![San::Dns("a.example.com".into())], eku: vec![ExtendedKeyUsagePurpose::ServerAuth], nb: Dt::ymd(2022, 1, 1), na: Dt::ymd(2038, 1, 1) },
+		leaf: LeafSpec { sans: vec![San::Dns("a.example.com".into())], eku: vec![ExtendedKeyUsagePurpose::ServerAuth], nb: Dt::ymd(2022, 1, 1), na: Dt::ymd(2038, 1, 1), ca: Ca::No },
 		t: ts(2025, 6, 1),
 		purpose: "server",
 		ca_kid: Kid::Sha256,
 		via_request: false,
+		inter_via_spki: false,
 	}
 }
 
@@ -83,6 +89,7 @@ fn leaf_params(spec: &LeafSpec) -> PCert {
 	p.nb = spec.nb;
 	p.na = spec.na;
 	p.aki = true;
+	p.ca = spec.ca.clone();
 	p
 }
 
@@ -153,7 +160,13 @@ fn run_chain(s: &mut Suite, keys: &[Arc<KeyPair>; 3], c: &ChainCase) {
 	let (issuer_cert, issuer_key): (Certificate, &KeyPair) = match &interp {
 		Some(ip) => {
 			let Some(r) = ip.real() else { return };
-			let Ok(ic) = r.signed_by(&*keys[1], &root, &keys[0]) else { return };
+			let ic = if c.inter_via_spki {
+				let Ok(spki) = SubjectPublicKeyInfo::from_der(&keys[1].public_key_der()) else { return };
+				r.signed_by(&spki, &root, &keys[0])
+			} else {
+				r.signed_by(&*keys[1], &root, &keys[0])
+			};
+			let Ok(ic) = ic else { return };
 			chain_der.push(ic.der().to_vec());
 			params.push(ip);
 			(ic, &keys[1])
@@ -440,6 +453,35 @@ pub fn run(ctx: &mut Ctx) -> Report {
 		}
 	}
 	s.rep.exhaustive.push("the valid baseline signed by CA keys of every algorithm of the build loaded through each of the nine entry points (root at depth 1, intermediate at depth 2)".into());
+	// the same with CA keys held by a remote signer (every algorithm the harness's signer has),
+	// with an intermediate of each algorithm certified for its imported public key alone, and with
+	// a leaf that says outright it is no CA
+	for alg in crate::keys::ring_algs() {
+		if !crate::keys::build_algs().iter().any(|a| alg_name(a) == alg_name(alg)) {
+			continue;
+		}
+		let remote = Arc::new(crate::keys::remote_key(alg, &s.ctx.rsa_fixture).key_pair);
+		let local = s.ctx.key(alg_name(alg));
+		for depth2 in [false, true] {
+			let mut c = base_case(depth2);
+			c.tag = format!("ca-key:{}:remote-signer:depth{}", alg_name(alg), if depth2 { 2 } else { 1 });
+			let ks: [Arc<KeyPair>; 3] = if depth2 { [keys[0].clone(), remote.clone(), keys[2].clone()] } else { [remote.clone(), keys[1].clone(), keys[2].clone()] };
+			run_chain(&mut s, &ks, &c);
+		}
+		let mut c = base_case(true);
+		c.tag = format!("ca-key:{}:intermediate-certified-for-its-public-key", alg_name(alg));
+		c.inter_via_spki = true;
+		run_chain(&mut s, &[keys[0].clone(), local.clone(), keys[2].clone()], &c);
+	}
+	for depth2 in [false, true] {
+		for ca in [Ca::No, Ca::ExplicitNo] {
+			let mut c = base_case(depth2);
+			c.tag = format!("leaf-ca-flag:{:?}:depth{}", ca, if depth2 { 2 } else { 1 });
+			c.leaf.ca = ca;
+			run_chain(&mut s, &keys, &c);
+		}
+	}
+	s.rep.exhaustive.push("CA keys behind a remote signer (every algorithm, root and intermediate); intermediates of every algorithm certified for their imported SubjectPublicKeyInfo; leaves that say nothing / say outright they are no CA".into());
 	// the pair the command-line tool writes, for each combination of its two purpose flags: the
 	// end-entity certificate serves exactly the purposes asked for (no flag: no restriction)
 	{
